@@ -9,7 +9,7 @@ Output: NDJSON, one record per line.
   {"id", "op": "int16" | "len" | "str", "ins": [...], "encs": [...], "decs": [...]}   primitive codecs, batched
 """
 import sys, json, random, os
-sys.path.insert(0, '/repo/src')
+sys.path.insert(0, __import__('os').environ.get('MQTT_SRC', '/repo/src'))
 from mqtt import pdu, v31, v311
 
 BIG = 4096          # payloads above this size are reported as (head bytes, length, slice comparison)
